@@ -80,6 +80,8 @@ def generate(rng, index, tier):
     if index % 997 == 1:
         # a long-running operation: thousands of same-thread records inside one window, then the thread goes on
         n = worlds.LONG_SIZES[(index // 997) % len(worlds.LONG_SIZES)]
+        if (index // 997) % 3 == 2:
+            n = worlds.dict_size(rng, 70000 if tier == 'quick' else 270000) or n      # right at a count the source names
         ctx = worlds.Ctx(0, 100, [100, 117])
         name = rng.pick(['BSC_read', 'MACH_vmfault', 'DBG_DYLD_TIMING_LAUNCH_EXECUTABLE', 'BSC_open'])
         ops = [worlds.op_long_window(rng, name, n)] + worlds.gen_ops(rng, ctx, 2, {'bsd': 1, 'mach': 1})
